@@ -313,7 +313,16 @@ def samples(rng, quick):
         else:
             mix += bytes([rng.getrandbits(8)]) * rng.randrange(1, 400)
     out.append(bytes(mix))
+    # boundary lengths: SHA-256 padding (55/56/64 mod 64), the xz I/O buffer (8 KiB), LZMA2 chunk limits (64 KiB of
+    # incompressible data = uncompressed-chunk fallback; 2 MiB uncompressed per LZMA chunk is out of reach of the budgets)
+    for n in (55, 56, 64, 119, 8192, 8193):
+        out.append(bytes((i * 131 + 7) & 0xFF for i in range(n)))
+    rnd = lambda n: rng.getrandbits(8 * n).to_bytes(n, "little")
+    out.append(rnd(65536))
+    out.append(rnd(65537))
     if not quick:
+        out.append(rnd(65535))
+        out.append(rnd(2 * 65536 + 1))
         out.append(bytes(rng.getrandbits(8) if rng.random() < 0.1 else 0x41 for _ in range(70000)))
     return out
 
@@ -392,6 +401,9 @@ def adversarial(rng):
     out.append(("xz", xz_stream([blk]) + bytes(3) + xz_stream([blk])))
     out.append(("xz", xz_stream([]) + xz_stream([]) + xz_stream([blk] * 5)))
     out.append(("xz", xz_stream([]) * 40))
+    # Record counts around the group size of lzma_index (INDEX_GROUP_SIZE = 512)
+    for nrec in (511, 512, 513, 1024, 1025):
+        out.append(("index", index_field([(5 + (i % 9), i % 5) for i in range(nrec)])))
     # many tiny records: Index memory usage vs memlimit
     out.append(("index", index_field([(5 + (i % 7), i % 3) for i in range(3000)])))
     out.append(("index", index_field([(VLI_MAX // 4096, VLI_MAX // 4096)] * 4000)))
